@@ -81,8 +81,9 @@ def geno_snapshot(g, b):
 
 def ind_snapshot(ind: Individual, b, problem):
     fit = None
-    if problem is not None and ind.has_fitness(problem):
-        f = ind.get_fitness(problem)
+    # (read from the store itself: `has_fitness` is the library's own judgement of what counts as evaluated)
+    if problem is not None and problem in getattr(ind, "fitness_store", {}):
+        f = ind.fitness_store[problem]
         fit = (repr(f.maximizing_aggregate), tuple(repr(c) for c in f.fitness_components))   # (repr: NaN compares unequal to itself)
     return {"genotype": geno_snapshot(ind.genotype, b), "fitness": fit,
             "phenotype": None if ind.phenotype is None else node_snapshot(ind.phenotype, b, {})}
@@ -705,10 +706,11 @@ def run(h: Harness):
             def flaky(p, asked=asked):
                 key = repr(p)
                 asked[key] = asked.get(key, 0) + 1
-                return float('nan') if (asked[key] == 1 and len(key) % 2 == 0) else float(len(key) % 13)
+                # (NaN the first time for some programs; otherwise a value -- exactly 0.0 included -- that a SECOND call would not repeat)
+                return float('nan') if (asked[key] == 1 and len(key) % 2 == 1) else float((len(key) % 4) * (1 if asked[key] == 1 else 5) + (0 if asked[key] == 1 else 3))
             fproblem = SingleObjectiveProblem(flaky, minimize=False)
             safe(lambda: ev.evaluate(fproblem, pool))
-            fpool = [p for p in pool if p.has_fitness(fproblem)]
+            fpool = [p for p in pool if fproblem in p.fitness_store]
             if len(fpool) >= 2:
                 w5 = Watch(h, b, fproblem, is_dsge, f'{name}:')
                 w5.add(fpool)
